@@ -58,7 +58,7 @@ def plan(tier, seed):
     specs = [{"kind": "arch", "len": la, "first": i} for i in range(len(ARCH_VOCAB))]
     specs += [{"kind": "arch_alt", "len": la - 1, "pair": i} for i in range(len(ALT_NAMES))]
     specs += [{"kind": "rule", "len": lr, "third": i} for i in range(len(RULE_VOCAB))]
-    specs += [{"kind": "random", "n": 1500 if tier == "quick" else 40000} for _ in range(2 if tier == "quick" else 6)]
+    specs += [{"kind": "random", "n": 1500 if tier == "quick" else 150000} for _ in range(2 if tier == "quick" else 8)]
     return specs
 
 
